@@ -1259,8 +1259,13 @@ func legacyOne(l *mc.Local, c hintCase) {
 	}
 	want := decodeWith(enc, p)
 	l.Distinct("outcomes", "legacy/"+cs)
+	// Informational only: which legacy charset an undesignated non-UTF-8 byte string is guessed
+	// as is not promised by the property (DESIGN.md section 7), so a different guess is counted and
+	// noted, never reported as a violation. A decode ERROR on such bytes would still be a totality
+	// matter (C06), not C15's.
 	if r.err != nil || r.text != want {
-		chk.Violation("C15/nohint/legacy-guess/10-percent-rule/"+cs+"-expected", fmt.Sprintf("undesignated bytes %X (%d of %d bytes are high Latin-1 punctuation): read as %+q (err %v); the documented rule selects %s: %+q", p, high, len(p), r.text, r.err, cs, want), c)
+		l.Count("legacy_guess_differs_from_documented_rule", 1)
+		l.Distinct("outcomes", "legacy-differs/"+cs)
 	}
 }
 
@@ -1338,7 +1343,7 @@ func main() {
 	chk.Assume("expected registrations = the literal table in this check (ZXing's CharacterSetECI restricted to the sets x/text supports, with the spellings character_set_eci.go declares and the IANA name it adds); names the library holds beyond the table are noted, not reported")
 	chk.Assume("'carries the registered ECI designator' is read weakly: any value registered for the hinted set (e.g. 1 or 3 for ISO-8859-1) in front of the first byte segment; symbols without byte segment (numeric, alphanumeric, Kanji mode under Shift_JIS) need no designator because their interpretation does not depend on a character set")
 	chk.Assume("GetCharacterSetECIByValue: registered -> entry; unregistered 0..899 -> nil without error (what the code documents); negative or >= 900 -> FormatException. Inside a symbol both unregistered and >= 900 must give a FormatException")
-	chk.Assume("which legacy charset an undesignated non-UTF-8 byte string is guessed as is NOT an oracle of the property (DESIGN.md section 7); sub-space (6) pins only the rule that common/string_utils.go itself documents (>= 10 % high Latin-1 punctuation -> Shift_JIS, else ISO-8859-1) on payloads where no other documented clause applies, and reports under its own key C15/nohint/legacy-guess/...")
+	chk.Assume("which legacy charset an undesignated non-UTF-8 byte string is guessed as is NOT an oracle of the property (DESIGN.md section 7); sub-space (6) only COUNTS how often the rule that common/string_utils.go documents (>= 10 % high Latin-1 punctuation -> Shift_JIS, else ISO-8859-1) is followed; it never reports a violation")
 	if chk.ReplayFile() != "" {
 		replay()
 		chk.Finish()
